@@ -56,6 +56,31 @@ def native_rule_violation(nat, m, ts, te, quick=True):
     return None
 
 
+def native_year_guard_violation(nat, m, ts, te):
+    """replay of a year-guard / panic model: the rule numbers come from the solver model (the calendar in those queries is abstract, so
+    the model's instant is not tied to a real year); the real lookup is run at instants of the first and last three years of the
+    supported range. Ok <=> year within [i32::MIN+2, i32::MAX-2] (the function's documented refusal), never a panic."""
+    o = nat.both([f'alt_new {alt_cmd(m, ts, te)}'])[0]
+    if not all(x.startswith('ok') for x in o):
+        return None
+    cands = []
+    for y in (calref.I32_MIN, calref.I32_MIN + 1, calref.I32_MIN + 2, calref.I32_MAX - 2, calref.I32_MAX - 1, calref.I32_MAX):
+        j = calref.days_from_civil(y, 1, 1) * 86400
+        for t in (j, j + 1, j + 8 * 86400, j + 100 * 86400, j + 200 * 86400, j + 300 * 86400, j + 356 * 86400, j + 365 * 86400 - 1):
+            if calref.MIN_T <= t <= calref.MAX_T and calref.gmtime(t)[0] == y:
+                cands.append((y, t))
+    if 't' in m and calref.MIN_T <= m['t'] <= calref.MAX_T:
+        cands.append((calref.gmtime(m['t'])[0], m['t']))
+    outs = nat.both([f'alt_find {alt_cmd(m, ts, te)} {t}' for _, t in cands])
+    for (y, t), (dv, rl) in zip(cands, outs):
+        want_ok = calref.I32_MIN + 2 <= y <= calref.I32_MAX - 2
+        for prof, x in (('dev', dv), ('release', rl)):
+            if x.startswith('panic') or x.startswith('ok') != want_ok:
+                return (f'rule [{alt_cmd(m, ts, te)}]: lookup at t={t} (year {y}) gives {x!r} in the {prof} profile; the lookup must answer Ok exactly for years within [i32::MIN+2, i32::MAX-2] and never panic',
+                        {'cmd': f'alt_find {alt_cmd(m, ts, te)} {t}', 'kind': 'year-guard', 'want_ok': want_ok, 'model': m, 'ts': ts, 'te': te, 't': t})
+    return None
+
+
 def run(ck):
     A = EngineA(ck, unwind={'binary_search_i64': 5, 'from_timespec': 12})
     E_ = A.mir.enums
@@ -206,7 +231,9 @@ def run(ck):
         q = A.claim(f'L3:{tagn}:dst_exactly_in_periods[tie-year role]', AND(base, role, NOT(right)), get=allv, replay=rp3, cases=cases, cap=(300 if quick else 1800), kind='known-role', required=False,
                     meaning='same claim restricted to the role of known finding F2 (start and end coincide in the queried year, rule not northern)')
         q.role = KNOWN_ROLE
-        A.claim(f'L3:{tagn}:year_guard', AND(inr, NOT(IFF(resok, AND(CMP('<=', I32[0] + 2, Y), CMP('<=', Y, I32[1] - 2))))), get=allv, replay=lambda m: None,
+        def rpy(m, ts=ts, te=te):
+            return native_year_guard_violation(nat, m, ts, te)
+        A.claim(f'L3:{tagn}:year_guard', AND(inr, NOT(IFF(resok, AND(CMP('<=', I32[0] + 2, Y), CMP('<=', Y, I32[1] - 2))))), get=allv, replay=rpy,
                 meaning='in-range instant: Ok <=> year within [i32::MIN+2, i32::MAX-2]')
         A.claim(f'L3:{tagn}:out_of_range_is_error', AND(NOT(inr), NOT(AND(NOT(resok), is_variant(res['$v']['Err'][0], E_, 'TzError', 'OutOfRange')))), get=allv, replay=lambda m: None)
         # window sufficiency: periods starting before Y-3 have ended by t; starts after Y+3 are later than t
@@ -224,7 +251,7 @@ def run(ck):
         A.claim(f'L3:{tagn}:vac_std', AND(base, NOT(role), NOT(rdA)), expect='sat', kind='vacuity')
         A.claim(f'L3:{tagn}:vac_south', AND(base, NOT(role), south, NOT(north), rdA), expect='sat', kind='vacuity')
         n_live = len(M.C.obl)
-        A.panic_obligations(f'L3:{tagn}:no_panic_overflow_in_lookup', get=allv, replay=lambda m: None, extra_pre=[])
+        A.panic_obligations(f'L3:{tagn}:no_panic_overflow_in_lookup', get=allv, replay=rpy, extra_pre=[])
         all_q += A.queries
         A.queries = []
         for f in ex.encoded:
@@ -261,7 +288,9 @@ def replay(ck, case):
     c = case['case']
     out = nat.both([c['cmd']])[0]
     print('native (dev, release):', out)
-    if c.get('kind') == 'ruleday':
+    if c.get('kind') == 'year-guard':
+        bad = any(o.startswith('panic') or o.startswith('ok') != c['want_ok'] for o in out)
+    elif c.get('kind') == 'ruleday':
         bad = any(o != f'ok {calref.rule_day_instant(tuple(c["day"]), c["y"], c["dt"])}' for o in out)
     else:
         bad = native_rule_violation(nat, c['model'], c['ts'], c['te']) is not None
